@@ -146,3 +146,30 @@ def counts_of(r):
         return None if x == "x" else int(x)
     return {"usable": int(c[0]), "unusable": int(c[1]), "pusable": int(c[2]), "punusable": int(c[3]),
             "misplaced": num(c[4]), "needed": int(c[5]), "possible": int(c[6])}
+
+
+# ---------- recovery blocks that are really there (independent of gopar and of the model) ----------
+def packets_of(b):
+    """(offset, length, type16, bytes) of the back-to-back packets of a file written by Create"""
+    import struct
+    out, off = [], 0
+    while off + 64 <= len(b) and b[off:off + 8] == b"PAR2\0PKT":
+        ln = struct.unpack("<Q", b[off + 8:off + 16])[0]
+        if ln < 64 or off + ln > len(b):
+            break
+        out.append((off, ln, bytes(b[off + 48:off + 64]), bytes(b[off:off + ln])))
+        off += ln
+    return out
+
+
+def intact_block_count(ps, fs):
+    """number of distinct recovery blocks whose complete packet is still present in some '<base>.*.par2' file beside the index"""
+    import struct
+    want = {}
+    for v in ps.volumes:
+        for off, ln, typ, raw in packets_of(ps.created[v]):
+            if typ.startswith(b"PAR 2.0\0RecvSlic"):
+                want[struct.unpack("<I", raw[64:68])[0]] = raw
+    prefix, suffix = DIR + "/" + ps.base + ".", ".par2"
+    files = [d for p, d in fs.items() if p.startswith(prefix) and p.endswith(suffix) and "/" not in p[len(DIR) + 1:]]
+    return sum(1 for e, raw in want.items() if any(raw in d for d in files))
